@@ -139,6 +139,9 @@ func randFanSpec(r *rand.Rand, profile string) (FanSpec, func(int) int) {
 	spec.NeverStop = r.Intn(3) > 0
 	spec.HasRpm = r.Intn(4) > 0
 	spec.HasMode = spec.Kind == "hwmon" && r.Intn(5) > 0
+	// now and then a driver that ignores writes to pwm_enable (it keeps reporting the mode it had): regulation goes on all the
+	// same - the PWM value is what counts
+	spec.ModeStuck = spec.HasMode && r.Intn(6) == 0
 	if profile == "C02" || profile == "C10" {
 		spec.NeverStop = true
 		spec.HasRpm = true
@@ -290,6 +293,7 @@ func runStallHistory(t *testing.T, rec *Recorder, r *rand.Rand, steps int) {
 		spec.Kind = "file"
 	}
 	spec.HasMode = spec.Kind == "hwmon" && r.Intn(4) > 0
+	spec.ModeStuck = spec.HasMode && r.Intn(5) == 0
 	mn, mx := randLimits(r)
 	if mx-mn > 40 && r.Intn(3) > 0 {
 		mn = mx - r.Intn(40) // keep most ladders short enough to reach the maximum
